@@ -261,6 +261,41 @@ pub fn attack_arithmetic(proof: &Value, candidates: &[Integer]) -> Option<(Strin
     None
 }
 
+/// Attacker program 5: two responses that share their blinding under two different challenges:
+/// (s - s') / (c - c') is then the secret itself.  `challenges` are the publicly recomputable ones.
+/// Returns (s path, s' path, candidate index) when the exact quotient equals a candidate.
+pub fn attack_difference_quotient(proof: &Value, challenges: &[Integer], candidates: &[Integer]) -> Option<(String, String, usize)> {
+    let leaves: Vec<(String, Integer)> = int_leaves(proof).into_iter().filter(|(_, v)| v.significant_bits() > 300).collect();
+    let mut dcs: Vec<Integer> = vec![];
+    for i in 0..challenges.len() {
+        for j in 0..challenges.len() {
+            if i != j {
+                let d = (&challenges[i] - &challenges[j]).complete();
+                if d != 0 && !dcs.contains(&d) {
+                    dcs.push(d);
+                }
+            }
+        }
+    }
+    for (i, (p1, s1)) in leaves.iter().enumerate() {
+        for (p2, s2) in leaves.iter().skip(i + 1) {
+            let ds = (s1 - s2).complete();
+            if ds == 0 {
+                continue;
+            }
+            for dc in &dcs {
+                if ds.is_divisible(dc) {
+                    let q = (&ds / dc).complete();
+                    if let Some(ci) = candidates.iter().position(|c| *c == q || *c == (-&q).complete()) {
+                        return Some((p1.clone(), p2.clone(), ci));
+                    }
+                }
+            }
+        }
+    }
+    None
+}
+
 pub fn check_view(rep: &Report, ck: &str, c: &Case, v: &View) -> CheckResult {
     let cj = |d: Value| json!({"case": c, "kind": v.kind, "hidden": v.hidden, "detail": d});
     let mut st = (c.seed as u64) << 3 | 7;
@@ -297,6 +332,19 @@ pub fn check_view(rep: &Report, ck: &str, c: &Case, v: &View) -> CheckResult {
             );
         }
     }
+    // (E) difference quotients of response pairs over pairs of stored challenges
+    let stored_challenges: Vec<Integer> = int_leaves(&v.proof).into_iter().filter(|(p, _)| p.ends_with("/challenge")).map(|x| x.1).collect();
+    let recomputed = crate::props::c19::public_challenges(v).unwrap_or_default();
+    let all_ch: Vec<Integer> = stored_challenges.into_iter().chain(recomputed.into_iter().map(|x| x.1)).collect();
+    rep.eval(ck, 1);
+    if let Some((p1, p2, si)) = attack_difference_quotient(&v.proof, &all_ch, &secret_vals) {
+        return rep.fail(
+            ck,
+            &format!("difference-quotient-yields-secret:{}:{}:{}", v.kind, generic_path(&p1), generic_path(&p2)),
+            format!("{}: ({} - {}) / (c - c') for two public challenges equals the {} - the two responses share their blinding", v.kind, p1, p2, v.secrets[si].0),
+            cj(json!({"s": p1, "s_prime": p2, "secret": v.secrets[si].0})),
+        );
+    }
     // (D) dictionary attack: true value vs decoy, order decided by the seed; the attacker sees only
     // the proof, the public base pairs and the two candidates
     for (pos, truth) in &v.hidden_vals {
@@ -306,6 +354,7 @@ pub fn check_view(rep: &Report, ck: &str, c: &Case, v: &View) -> CheckResult {
         let guess = attack_pairs(&v.proof, &v.pairs, &cands)
             .map(|x| x.2)
             .or_else(|| attack_arithmetic(&v.proof, &cands).map(|x| x.2))
+            .or_else(|| attack_difference_quotient(&v.proof, &all_ch, &cands).map(|x| x.2))
             .or_else(|| attack_all_leaves(&v.proof, &v.pairs, &cands).map(|x| x.3));
         rep.eval(ck, 1);
         if let Some(g) = guess {
@@ -410,7 +459,7 @@ pub fn run(ctx: &Ctx, rep: &Report) -> Meta {
     Meta {
         rule: "honest issuance proofs (with and without trusted-party commitment) and signature proofs for EVERY non-empty hidden set (n = 1..3 quick / 1..5 thorough) plus generated cases, high-entropy 256-bit attributes only; \
                attacker programs over serde_json::to_value(proof) and the public base pairs {(a_i, b), (g_i, h)}: (A) every (value, randomness)-shaped object tested as an opening of every secret the prover holds, \
-               (B) every integer leaf as value against every integer leaf as randomness, (C) recovery of the signature's v as V * g^(-rho) over all leaf pairs, (D) dictionary attack with the true hidden attribute and a decoy in seed-shuffled order, by opening recomputation and by arithmetic relations (a field equal to or a multiple of the candidate); \
+               (B) every integer leaf as value against every integer leaf as randomness, (C) recovery of the signature's v as V * g^(-rho) over all leaf pairs, (D) dictionary attack with the true hidden attribute and a decoy in seed-shuffled order, by opening recomputation, by arithmetic relations (a field equal to or a multiple of the candidate) and by difference quotients (s - s')/(c - c') over all response pairs and all pairs of public challenges (shared blinding inside one proof); \
                oracle: no program succeeds; positive control: the programs find a planted opening; non-trivial = proof with >= 1 hidden attribute; evaluations = attacker-program runs"
             .into(),
         assumptions: vec!["only the direct recomputation attacks named by the property are decided; subtler leaks are not found".into(), "attributes are random 256-bit values, so an accidental equality has probability < 2^-200".into()],
